@@ -382,6 +382,8 @@ type CqlServerConnection struct {
 	ctx                context.Context
 	cancel             context.CancelFunc
 	payloadAccumulator *payloadAccumulator
+	// closeLock is held for reading while sending on incoming or outgoing, and for writing while Close closes them.
+	closeLock sync.RWMutex
 }
 
 func newCqlServerConnection(
@@ -666,12 +668,14 @@ func (c *CqlServerConnection) reportConnectionFailure(err error, read bool) (abo
 
 func (c *CqlServerConnection) processIncomingFrame(incoming *frame.Frame) {
 	log.Debug().Msgf("%v: received incoming frame: %v", c, incoming)
+	c.closeLock.RLock()
 	select {
 	case c.incoming <- incoming:
 		log.Debug().Msgf("%v: incoming frame successfully delivered: %v", c, incoming)
 	default:
 		log.Error().Msgf("%v: incoming frames queue is full, discarding frame: %v", c, incoming)
 	}
+	c.closeLock.RUnlock()
 	if len(c.handlers) > 0 {
 		c.invokeRequestHandlers(incoming)
 	}
@@ -723,6 +727,8 @@ func (c *CqlServerConnection) invokeRequestHandlers(request *frame.Frame) {
 
 // Send sends the given response frame.
 func (c *CqlServerConnection) Send(f *frame.Frame) error {
+	c.closeLock.RLock()
+	defer c.closeLock.RUnlock()
 	if c.IsClosed() {
 		return fmt.Errorf("%v: connection closed", c)
 	}
@@ -738,6 +744,8 @@ func (c *CqlServerConnection) Send(f *frame.Frame) error {
 
 // SendRaw sends the given response frame (already encoded).
 func (c *CqlServerConnection) SendRaw(rawResponse []byte) error {
+	c.closeLock.RLock()
+	defer c.closeLock.RUnlock()
 	if c.IsClosed() {
 		return fmt.Errorf("%v: connection closed", c)
 	}
@@ -785,12 +793,14 @@ func (c *CqlServerConnection) Close() (err error) {
 		log.Debug().Msgf("%v: closing", c)
 		c.cancel()
 		err = c.conn.Close()
+		c.closeLock.Lock()
 		incoming := c.incoming
 		outgoing := c.outgoing
 		c.incoming = nil
 		c.outgoing = nil
 		close(incoming)
 		close(outgoing)
+		c.closeLock.Unlock()
 		c.waitGroup.Wait()
 		c.onClose(c)
 		if err != nil {
